@@ -6,7 +6,7 @@ import ast
 from ..callgraph import CallGraph
 from ..loader import AnalysisError, dotted, norm, walk_no_defs
 from ..report import RuleReport
-from ..rules.common import FlagSem, attr_chain, conjuncts, run_flags
+from ..rules.common import FlagSem, attr_chain, conjuncts, dominating_conditions, run_flags
 
 LEVEL = 'other'
 TECHNIQUE = ('static: cache-key dataflow rule, who-may-write/who-may-read ownership of the memo stores with checked '
@@ -188,13 +188,7 @@ def r2_ownership(a, tier):
     pm = a.resolver.parents(mz)
     for n in walk_no_defs(mz.node):
         if isinstance(n, ast.Subscript) and isinstance(n.ctx, ast.Store) and norm(n.value) == 'self._memos':
-            gate = set()
-            cur = n
-            while id(cur) in pm:
-                par = pm[id(cur)]
-                if isinstance(par, ast.If) and any(cur is s or any(x is cur for x in ast.walk(s)) for s in par.body):
-                    gate |= {norm(c) for c in conjuncts(mz, par.test)}
-                cur = par
+            gate = {norm(c) for c in dominating_conditions(mz, pm, n)}
             ok = any(g.endswith('.memoizable') for g in gate) and any(g.endswith('config.memoization') for g in gate)
             key_ok = norm(n.slice) == mz.params[1]
             rep.add({'memoize_gate': sorted(gate), 'ok': ok, 'stores_under_its_key_param': key_ok})
